@@ -332,10 +332,10 @@ func replayBeh(c *lib.Ctx, h *H, probes [][]Op, b Beh, rng *rand.Rand, checkFds 
 	c.Reject(key, fmt.Sprintf("%s: %s", rc.Code, why), rc)
 }
 
-func mcCfg(maxR, maxO, neg, hi, npresent int, piped, emit bool, invs ...string) []byte {
+func mcCfg(g genRun, maxO int, emit bool, invs ...string) []byte {
 	tf := map[bool]string{true: "TRUE", false: "FALSE"}
-	s := fmt.Sprintf("CONSTANTS MaxR = %d MaxO = %d NegFds = %d DstHi = %d NPresent = %d Piped = %s Emitting = %s\nSPECIFICATION Spec\n",
-		maxR, maxO, neg, hi, npresent, tf[piped], tf[emit])
+	s := fmt.Sprintf("CONSTANTS MaxR = %d MaxO = %d NegFds = %d DstHi = %d NPresent = %d Piped = %s Emitting = %s Mini = %s FdA = %d FdB = %d\nSPECIFICATION Spec\n",
+		g.MaxR, maxO, g.Neg, g.Hi, g.NPresent, tf[g.Piped], tf[emit], tf[g.Mini], g.FdA, g.FdB)
 	for _, i := range invs {
 		s += "INVARIANT " + i + "\n"
 	}
@@ -348,6 +348,8 @@ type genRun struct {
 	Name                    string
 	MaxR, Neg, Hi, NPresent int
 	Piped                   bool
+	Mini                    bool // small alphabet over the two fds FdA, FdB
+	FdA, FdB                int
 }
 
 func run(c *lib.Ctx) error {
@@ -370,10 +372,15 @@ func run(c *lib.Ctx) error {
 		return validate(c, h, dir)
 	}
 	// ---- all TLC runs first (up to 4 processes side by side, 8 cores), then the real code sequentially
-	mos := []genRun{{"MCPorts(body)", 1, 1, 3, c.Pick(1, 3), false}, {"MCPorts(body,piped)", 1, 0, c.Pick(2, 3), 1, true}}
-	gens := []genRun{{"MCPorts(G,depth2)", 2, 2, 4, c.Pick(1, 3), false}, {"MCPorts(G,depth2,piped)", 2, c.Pick(0, 1), c.Pick(2, 3), 1, true}}
+	mos := []genRun{{Name: "MCPorts(body)", MaxR: 1, Neg: 1, Hi: 3, NPresent: c.Pick(1, 3)}, {Name: "MCPorts(body,piped)", MaxR: 1, Hi: c.Pick(2, 3), NPresent: 1, Piped: true}}
+	gens := []genRun{{Name: "MCPorts(G,depth2)", MaxR: 2, Neg: 2, Hi: 4, NPresent: c.Pick(1, 3)},
+		{Name: "MCPorts(G,depth2,piped)", MaxR: 2, Neg: c.Pick(0, 1), Hi: c.Pick(2, 3), NPresent: 1, Piped: true},
+		// three redirections over two fds: an owned file / the input pipe is duplicated and the original
+		// slot redirected from the duplicate, redirected again or closed, in every order
+		{Name: "MCPorts(G,depth3,fds1-2)", MaxR: 3, NPresent: 1, Mini: true, FdA: 1, FdB: 2},
+		{Name: "MCPorts(G,depth3,piped,fds0-3)", MaxR: 3, NPresent: 1, Piped: true, Mini: true, FdA: 0, FdB: 3}}
 	if c.Thorough() {
-		gens = append(gens, genRun{"MCPorts(G,depth3)", 3, 0, 2, 1, false})
+		gens = append(gens, genRun{Name: "MCPorts(G,depth3)", MaxR: 3, Hi: 2, NPresent: 1})
 	}
 	c.Set("bounds", map[string]any{"G": gens, "M_body": mos})
 	type tlcOut struct {
@@ -387,11 +394,11 @@ func run(c *lib.Ctx) error {
 		if i < len(mos) {
 			// M: design properties, with free body operations in every order
 			g = mos[i]
-			cfg = mcCfg(g.MaxR, 2, g.Neg, g.Hi, g.NPresent, g.Piped, false, append(designInvs, "EarlyAgreesProbed")...)
+			cfg = mcCfg(g, 2, false, append(designInvs, "EarlyAgreesProbed")...)
 		} else {
 			// M + G: every redirection sequence, emitted with prescribed outcomes
 			g = gens[i-len(mos)]
-			cfg = mcCfg(g.MaxR, 0, g.Neg, g.Hi, g.NPresent, g.Piped, true, append(designInvs, "Emit")...)
+			cfg = mcCfg(g, 0, true, append(designInvs, "Emit")...)
 		}
 		r, err := c.TLC(g.Name, lib.TLCRun{Dir: dir, Module: "MCPorts", Workers: 2, Timeout: 40 * time.Minute, HeapGB: 6,
 			Files: map[string][]byte{"MCPorts.cfg": cfg}})
@@ -513,7 +520,7 @@ func replay(c *lib.Ctx, h *H, dir string) error {
 	case f.Case.Beh != nil:
 		// the probe schedules come from the model
 		r, err := c.TLC("MCPorts(probes)", lib.TLCRun{Dir: dir, Module: "MCPorts", Timeout: 5 * time.Minute,
-			Files: map[string][]byte{"MCPorts.cfg": mcCfg(0, 0, 0, 0, 1, false, true, "Emit")}})
+			Files: map[string][]byte{"MCPorts.cfg": mcCfg(genRun{NPresent: 1}, 0, true, "Emit")}})
 		if err != nil {
 			return err
 		}
